@@ -21,6 +21,7 @@ func init() {
 		})
 		r.RequireMin("POOL-UAF", 20)
 		ee.RunOptSlice(r)
+		ee.RunOptParam(r)
 		ee.RunResetOrder(r)
 		ee.RunLocks(r)
 		RunDoubleChecked(p, r, func(pkg string) bool { return strings.HasPrefix(pkg, modPath+"/constraint") || strings.HasPrefix(pkg, modPath+"/backend") })
